@@ -541,7 +541,10 @@ func convertArg(val Value, typ reflect.Type) (reflect.Value, bool) {
 	}
 	if isNum(r.Kind()) && isNum(typ.Kind()) {
 		c := r.Convert(typ)
-		if c.Convert(r.Type()).Interface() == r.Interface() {
+		// The conversion must keep the value: back again it is the same number,
+		// and it has not changed sign (-1 wraps around to the largest unsigned
+		// value and back).
+		if c.Convert(r.Type()).Interface() == r.Interface() && negative(c) == negative(r) {
 			return c, true
 		}
 	}
@@ -551,6 +554,17 @@ func convertArg(val Value, typ reflect.Type) (reflect.Value, bool) {
 		return r.Convert(typ), true
 	}
 	return r, false
+}
+
+// negative reports whether the number held by r is below zero.
+func negative(r reflect.Value) bool {
+	switch r.Kind() {
+	case reflect.Int, reflect.Int8, reflect.Int16, reflect.Int32, reflect.Int64:
+		return r.Int() < 0
+	case reflect.Float32, reflect.Float64:
+		return r.Float() < 0
+	}
+	return false
 }
 
 func getMethod(v Value, name string) (reflect.Value, error) {
